@@ -74,6 +74,17 @@ where
             }
         };
 
+        #[cfg(bmwill_anemo_verif)]
+        crate::verif::emit(
+            "tmo.set",
+            crate::verif::json!({
+                "dir": "outbound",
+                "default_ns": self.default_timeout.map(|d| d.as_nanos() as u64),
+                "header": req.headers().get(crate::types::header::TIMEOUT),
+                "chosen_ns": timeout_duration.map(|d| d.as_nanos() as u64),
+            }),
+        );
+
         ResponseFuture {
             inner: self.inner.call(req),
             sleep: timeout_duration.map(tokio::time::sleep),
@@ -106,6 +117,8 @@ where
 
         if let Some(sleep) = this.sleep.as_pin_mut() {
             futures::ready!(sleep.poll(cx));
+            #[cfg(bmwill_anemo_verif)]
+            crate::verif::emit("tmo.fire", crate::verif::json!({ "dir": "outbound" }));
             return Poll::Ready(Err(TimeoutExpired(()).into()));
         }
 
